@@ -1431,12 +1431,15 @@ int yr_execute_code(YR_SCAN_CONTEXT* context)
       if (result == ERROR_SUCCESS)
       {
         result = yr_arena_write_data(obj_arena, 0, &r1.o, sizeof(r1.o), NULL);
-        obj_count++;
+
+        if (result == ERROR_SUCCESS)
+          obj_count++;
+        else
+          yr_object_destroy(r1.o);
       }
-      else
-      {
+
+      if (result != ERROR_SUCCESS)
         r1.i = YR_UNDEFINED;
-      }
 
       stop = (result != ERROR_SUCCESS);
       push(r1);
